@@ -324,6 +324,14 @@ def base64_half(rep, tier, wd, rng):
                     bad = bytearray(enc)
                     bad[i] = rng.choice(b"!=*~ \x00\xff.,") if rng.random() < 0.7 else rng.choice(B64STD if url else B64URL)
                     scen.append({"input": list(bad), "url": url, "padded": True})
+    # variable-length decoder at its capacity: the input fills the buffer exactly (and one group less)
+    for (m, a) in ((32, 4), (64, 4), (64, 16)):
+        for n in (m // 4 * 3, m // 4 * 3 - 1, m // 4 * 3 - 2, m // 4 * 3 - 3):
+            raw = bytes(rng.randrange(256) for _ in range(n))
+            for url in (False, True):
+                enc = (b64.urlsafe_b64encode if url else b64.b64encode)(raw)
+                if a == 4 or len(enc) % a == 0:
+                    scen.append({"input": list(enc), "url": url, "padded": True, "var": True, "m": m, "a": a})
     # padding forms
     for s_ in [b"TQ==", b"TQ=", b"TQ", b"T===", b"====", b"=AAA", b"TW=E", b"TWE==", b"TWFu====", b"TWFuTQ==", b"TQ==TWFu"]:
         for padded in (True, False):
